@@ -870,11 +870,11 @@ class OpGen:
         unsupported construct, so that some fake() calls raise inside the shared regex generator)."""
         import re as _re
         r = self.r
-        cfg = S.G.Cfg(r, depth=r.choice((1, 2)), budget=r.choice((32, 128)), p_neg=0.1, size=r.choice((1, 2, 3)),
+        cfg = S.G.Cfg(r, depth=r.choice((1, 2)), budget=r.choice((32, 64)), p_neg=0.1, size=r.choice((1, 2, 3)),
                       max_repeat=32, p_unsup=r.choice((0.0, 0.0, 0.4)))
-        for _ in range(6):
+        for _ in range(12):
             ast = S.G.gen_pattern(cfg)
-            if S.G.rep_nesting(ast) > 1:
+            if not S.G.member_safe(ast):
                 continue
             pat = S.G.render(ast)
             try:
